@@ -416,6 +416,8 @@ def gen_value(ty, rnd, mod, fields_decl, depth=0):
             return ''.join(rnd.choice('ab01 "\'-/*\n:{},.xE') for _ in range(ln))
         if n == 'NoneT':
             return None
+        if n == 'AbsList':
+            return []
         if n == 'Float':
             return rnd.choice([0.0, 1.0, -1.5, 1e300, 5e-324, float('inf'), float('-inf'), 0.1, 123456.789])
         if n == 'IntOrMin':
